@@ -14,14 +14,20 @@ Local Open Scope string_scope.
 Local Open Scope list_scope.
 
 (* ---- the guard table (T_reader): every lookup site the model consumes carries, in the source of this run, the guard the
-   proofs need.  20 consumed rows, enumerated completely and checked by vm_compute. *)
+   proofs need.  20 guard rows + 2 enumeration rows, enumerated completely and checked by vm_compute. *)
 Theorem C19_reader_guards : guards_okb G = true.
 Proof. vm_compute. reflexivity. Qed.
 Print Assumptions C19_reader_guards.
 
-Theorem C19_reader_table : List.length consumed_sites = 20 /\ forall c, In c consumed_sites -> site_okb c = true.
+Theorem C19_reader_table : List.length consumed_sites = 22 /\ forall c, In c consumed_sites -> site_okb c = true.
 Proof. split; [reflexivity|]. apply forallb_forall. vm_compute. reflexivity. Qed.
 Print Assumptions C19_reader_table.
+
+(* every `try ... except KeyError` of the reader functions the model transcribes swallows exactly the lookups the model absorbs
+   there (6 scopes; a lookup added inside one - e.g. keying property groups by a stored attribute - changes the row) *)
+Theorem C19_swallowing_scopes : List.length swallow_scopes = 6 /\ forall c, In c swallow_scopes -> scope_okb c = true.
+Proof. split; [reflexivity|]. apply forallb_forall. vm_compute. reflexivity. Qed.
+Print Assumptions C19_swallowing_scopes.
 
 (* hence the extracted guards are the ones the proofs were written against *)
 Theorem C19_guards_as_proved : G = G0.
@@ -89,6 +95,30 @@ Proof.
 Qed.
 Print Assumptions C19_mandatory_deletion_local_partial.
 
+(* ---- property groups one by one (what Workspace.load_entity returns for the object): deleting an attribute of one
+   property group, or its entry in the PropertyGroups block, leaves the object's other property groups and every other
+   field of the object exactly as in the intact file; only the addressed group loses the attribute / is left out. *)
+Theorem C19_property_group_item_local :
+  forall s t pgs p, wf s -> In t (subtrees (fs_root s)) -> et_pgs t = Some pgs ->
+  let ea := ent_addr (et_kind t) (et_uid t) in
+  (forall pk k0, exists P,
+      load_entity G (delete_item (layout s) (IAttr (ea ++ [KPGs; pk]) k0)) (U (et_uid t)) (Some (et_kind t)) p
+      = Ok (Some (rec_with_pgs s t P p))
+      /\ forall pk', pk' <> pk -> lookup pk' P = lookup pk' pgs)
+  /\ (forall pk, exists P,
+      load_entity G (delete_item (layout s) (ILink (ea ++ [KPGs]) pk)) (U (et_uid t)) (Some (et_kind t)) p
+      = Ok (Some (rec_with_pgs s t P p))
+      /\ lookup pk P = None /\ forall pk', pk' <> pk -> lookup pk' P = lookup pk' pgs).
+Proof.
+  intros s t pgs p Hwf Hin Hp ea. rewrite C19_guards_as_proved. split.
+  - intros pk k0. eexists. split; [exact (pg_attr_deleted s Hwf t Hin pgs Hp pk k0 p)|].
+    intros pk' Hne. apply lookup_map_other. exact Hne.
+  - intros pk. eexists. split; [exact (pg_entry_deleted s Hwf t Hin pgs Hp pk p)|]. split.
+    + apply lookup_remove_same.
+    + intros pk' Hne. apply lookup_remove_other. congruence.
+Qed.
+Print Assumptions C19_property_group_item_local.
+
 (* ---- witnesses *)
 Definition gtype : tspec := {| ts_attrs := [(KID, VStr "{gt}"); (KName, VTok 1)]; ts_cmap := None; ts_vmap := None |}.
 Definition gattrs (u : N) : amap := [(KN "Allow move", VTok 1); (KID, VUid u); (KName, VTok (u + 10))].
@@ -118,6 +148,27 @@ Example C19_root_link_instance :
   | Err _ => False
   end.
 Proof. vm_compute. repeat split; reflexivity. Qed.
+
+(* an object with three property groups: the hypotheses of C19_property_group_item_local are met, and deleting the ID of the
+   first group leaves the two others (evaluated) *)
+Definition otype : tspec := {| ts_attrs := [(KID, VStr "{202c5db1-a56d-4004-9cad-baafd8899406}"); (KName, VTok 1)]; ts_cmap := None; ts_vmap := None |}.
+Definition pg3 : list (key * amap) :=
+  [(KN "{a}", [(KID, VTok 1); (KN "Group Name", VTok 11)]); (KN "{b}", [(KID, VTok 2); (KN "Group Name", VTok 12)]);
+   (KN "{c}", [(KID, VTok 3); (KN "Group Name", VTok 13)])].
+Definition pts3 : etree := ET 3 KObject (gattrs 3) 0 [(KN "Vertices", 7%N)] (Some pg3) [KData] [].
+Definition s_pgs : fspec :=
+  {| fs_proj := [(KN "Version", VTok 2)];
+     fs_types := fun k => match k with KGroup => [(0%N, gtype)] | KObject => [(0%N, otype)] | KData => [] end;
+     fs_root := grp 9 [pts3] |}.
+Example C19_property_groups_nonvacuous :
+  wf s_pgs /\ In pts3 (subtrees (fs_root s_pgs)) /\ et_pgs pts3 = Some pg3
+  /\ item_in (layout s_pgs) (IAttr [KObjects; KU 3; KPGs; KN "{a}"] KID)
+  /\ match load 5 G true (delete_item (layout s_pgs) (IAttr [KObjects; KU 3; KPGs; KN "{a}"] KID)) with
+     | Ok t => option_map (fun r => map fst (r_pgs r)) (find_rec (U 3) (t_ents t)) = Some [KN "{a}"; KN "{b}"; KN "{c}"]
+               /\ fst (pg_diff s_pgs (abs s_pgs) t) = [(3%N, KN "{a}")] /\ snd (pg_diff s_pgs (abs s_pgs) t) = []
+     | Err _ => False
+     end.
+Proof. split; [vm_compute; reflexivity|]. split; [simpl; right; left; reflexivity|]. split; [reflexivity|]. split; vm_compute; repeat split; reflexivity. Qed.
 
 (* REFUTED for the old rebuild (the explicit [false] variant of the model: every flat entry is attached to the new root in
    identifier order): group 0 is met before its parent 4 and is hung on the new root — altered content for an entity the
